@@ -302,6 +302,8 @@ def c18():
             import gen
             progs, _ = gen.generate("quick", seed, work)
             for i, p in enumerate(progs[:200]):
+                if not p["mut"] and re.search(r"\b(fwd|split|drop)\b", p["text"]):
+                    continue      # forwards need polarities, i.e. types, at run time: with typechecking disabled such a program is K3's case, not a member of this class
                 cls = "illtyped_any" if p["mut"] else "welltyped_prints"
                 fp = work.path("gen_%d.grits" % i)
                 open(fp, "w").write(p["text"])
@@ -552,12 +554,17 @@ def c19():
                         suspicious = True
                     out.append({"prog": pid, "obs": o})
                 if not suspicious:
-                    break
-            return out
+                    return out
+            return None      # every attempt was cut short by the heartbeat time-out (machine load): the history is not judged
 
         import concurrent.futures
         with concurrent.futures.ThreadPoolExecutor(max_workers=8) as ex:
-            observed = list(ex.map(run_hist, hists))
+            observed_all = list(ex.map(run_hist, hists))
+        not_judged = sum(1 for o in observed_all if o is None)
+        hists = [h for h, o in zip(hists, observed_all) if o is not None]
+        observed = [o for o in observed_all if o is not None]
+        if not_judged:
+            v.notes.append("%d histories were not judged (every attempt cut short by the heartbeat time-out)" % not_judged)
         data = {"alone": alone, "histories": observed}
         tp = work.path("host_obs.json")
         json.dump(data, open(tp, "w"))
